@@ -346,18 +346,36 @@ let judge_line (line : string) =
       let idx = int_of_string i in
       if idx = List.length !tab then tab := !tab @ [(z_of_big_dec co, z_of_dec_string e)]
       else if idx < List.length !tab then () else report line [z_of_int 99]
-  | ["lm"; opn; p; emax; emin; traps; rnd; x], [d; cnd; er] ->
+  | "lm" :: opn :: p :: emax :: emin :: traps :: rnd :: x :: a0 :: fl, [d; cnd; er] ->
       let c = mkCtx (z_of_dec_string p) (z_of_dec_string emax) (z_of_dec_string emin)
                 (cond_of_Z (z_of_dec_string traps)) (rounder_of_token rnd) in
       let craw = z_of_dec_string cnd in
       let o = mkObs (dec_req d) (cond_of_Z craw) craw (err_of_token er) Z0 None None true in
       let xd = dec_req x in
       let lg = (opn = "Log10") in
-      if ln_modelled !ln10_tab !invln10_tab lg c xd then begin
-        bump opcount (opn ^ "SeriesModel"); Hashtbl.replace nontrivial (String.concat " " lhs) () end
-      else bump opcount (opn ^ "HalleyNotModelled");
+      let rec pairs = function a :: b :: r -> (z_of_dec_string a, z_of_dec_string b) :: pairs r | _ -> [] in
+      let a0d = dec_req a0 and exps = pairs fl in
+      let path = ln_path !ln10_tab !invln10_tab lg a0d exps c xd in
+      if path = Z0 then bump opcount (opn ^ "NotModelled")
+      else begin
+        bump opcount (opn ^ (if path = z_of_int 1 then "SeriesModel" else "HalleyModel"));
+        Hashtbl.replace nontrivial (String.concat " " lhs) () end;
       let k = mkCase ORound c xd xd Z0 ANone xd in
-      report line (corr_ln !ln10_tab !invln10_tab lg c xd o @ (if is_finite o.o_dec && err_eqb_none o then oracle_c07 k o else []))
+      report line (corr_ln_full !ln10_tab !invln10_tab lg a0d exps c xd o @ (if is_finite o.o_dec && err_eqb_none o then oracle_c07 k o else []))
+  | "pm" :: p :: emax :: emin :: traps :: rnd :: x :: y :: cp :: n :: a0 :: fl, [d; cnd; er] ->
+      let c = mkCtx (z_of_dec_string p) (z_of_dec_string emax) (z_of_dec_string emin)
+                (cond_of_Z (z_of_dec_string traps)) (rounder_of_token rnd) in
+      let craw = z_of_dec_string cnd in
+      let o = mkObs (dec_req d) (cond_of_Z craw) craw (err_of_token er) Z0 None None true in
+      let xd = dec_req x and yd = dec_req y in
+      let rec pairs = function a :: b :: r -> (z_of_dec_string a, z_of_dec_string b) :: pairs r | _ -> [] in
+      let a0d = dec_req a0 and exps = pairs fl in
+      let cpz = z_of_dec_string cp and nz = z_of_dec_string n in
+      if pow_modelled !ln10_tab cpz nz a0d exps c xd yd then begin
+        bump opcount "PowModel"; Hashtbl.replace nontrivial (String.concat " " lhs) () end
+      else bump opcount "PowNotModelled";
+      let k = mkCase ORound c xd xd Z0 ANone xd in
+      report line (corr_pow !ln10_tab cpz nz a0d exps c xd yd o @ (if is_finite o.o_dec && err_eqb_none o then oracle_c07 k o else []))
   | ["gs"; _; _], [v] -> bump opcount "GlobalsSnapshot"; report line (if v = "1" then [] else [z_of_int 89])
   | ["gn"; b], [g; o] ->
       bump opcount "NumDigitsGlobals"; Hashtbl.replace nontrivial b ();
